@@ -45,9 +45,12 @@ SEQ_INVS = ("TypeOK", "ReadsSequential", "FinalSequential", "NoConflictRunning",
 # ---------------------------------------------------------------------------------------------------------
 # model level
 # ---------------------------------------------------------------------------------------------------------
-def model_check(ctx, d):
-    """Exhaustive TLC runs of Seq.tla: the ordering guard implies sequential values / exclusion / flush."""
-    cfgs = [("m3x1", {"ND": 2, "MaxTasks": 3, "MaxAcc": 1}), ("m3x2d1", {"ND": 1, "MaxTasks": 3, "MaxAcc": 2})]
+def model_check(ctx, d, dup=True):
+    """Exhaustive TLC runs of Seq.tla: the ordering guard implies sequential values / exclusion / flush.
+    dup: also the configuration in which one datum is given to two parameters of a task (C03 only in quick)."""
+    cfgs = [("m3x1", {"ND": 2, "MaxTasks": 3, "MaxAcc": 1})]
+    if dup or not ctx.quick:
+        cfgs.append(("m3x2d1", {"ND": 1, "MaxTasks": 3, "MaxAcc": 2}))
     if not ctx.quick:
         cfgs += [("m2x2", {"ND": 2, "MaxTasks": 2, "MaxAcc": 2}), ("m3x2", {"ND": 2, "MaxTasks": 3, "MaxAcc": 2})]
     for name, c in cfgs:
